@@ -68,7 +68,7 @@ Stuck == (m.st # "oom" /\ ~ENABLED TraceNext /\ ~(Finished /\ Outcome)) =>
 (* (2) compiler vs source semantics, on the machine alone *)
 Xlate ==
     (Finished /\ m.st \in {"halt", "fail"} /\ C.judge_src) =>
-        LET r == Run(C.prog) IN
+        LET r == IF "mods" \in DOMAIN C.prog THEN RunProject(C.prog) ELSE Run(C.prog) IN
         \/ r.status \in {"fuel", "type"}
         \/ /\ r.out = m.out
            /\ (r.status = "ok") = (m.st = "halt")
